@@ -159,3 +159,51 @@ def orthonormal_orbitals(rng, obasis, atcoords, norb=None):
     q, _ = np.linalg.qr(np.array([[rng.gauss(0, 1) for _ in range(n)] for _ in range(n)]))
     c = x @ q
     return c[:, : min(norb or n, n)]
+
+
+def value_bounds(obasis, atcoords, pts, prec):
+    """(A, E): for every basis function the sum of the absolute primitive contributions at the points, and a first-order bound of
+    the change of its value when every printed number moves by the printed precision of a format.
+
+    prec: reld/absd (relative/absolute rounding of a contraction coefficient), rela/absa (exponent), dR (each nuclear coordinate).
+    A primitive  d N(alpha) x^a y^b z^c exp(-alpha r^2)  with N ~ alpha^((2l+3)/4) changes by at most
+    |term| (dd/|d| + ((2l+3)/(4 alpha) + r^2) dalpha) + dR sum_axes |d term/d axis|.
+    """
+    A, E = [], []
+    reld, absd, rela, absa, dR = (prec.get(k, 0.0) for k in ("reld", "absd", "rela", "absa", "dR"))
+    for sh in obasis.shells:
+        rel = pts - atcoords[int(sh.icenter)]
+        r2 = (rel * rel).sum(axis=1)
+        for icon, (l, kind) in enumerate(zip(sh.angmoms, sh.kinds)):
+            l = int(l)
+            for lab in obasis.conventions[(l, str(kind))]:
+                _sgn, what = parse_label(lab)
+                a_sum = np.zeros(len(pts))
+                e_sum = np.zeros(len(pts))
+                for a, c in zip(sh.exponents, sh.coeffs[:, icon]):
+                    a = float(a)
+                    if what[0] == "c":
+                        mons = [(abs(c) * cart_norm(a, what[1]), what[1])]
+                    else:
+                        mons = [(abs(c) * pure_norm(a, l) * abs(coef), mon) for mon, coef in solid_harmonic(l, what[1], what[2]).items()]
+                    da = rela * a + absa
+                    relerr = reld + (absd / abs(c) if c != 0 else 0.0) + (2 * l + 3) / (4 * a) * da + r2 * da
+                    g = np.exp(-a * r2)
+                    for k, n in mons:
+                        mono = np.abs(rel[:, 0]) ** n[0] * np.abs(rel[:, 1]) ** n[1] * np.abs(rel[:, 2]) ** n[2]
+                        term = k * mono * g
+                        a_sum += term
+                        grad = np.zeros(len(pts))
+                        for ax in range(3):
+                            x = np.abs(rel[:, ax])
+                            lower = np.ones(len(pts))
+                            for bx in range(3):
+                                p = n[bx] - (1 if bx == ax else 0)
+                                if p > 0:
+                                    lower = lower * np.abs(rel[:, bx]) ** p
+                            d_poly = n[ax] * lower if n[ax] > 0 else 0.0
+                            grad += k * g * (d_poly + 2 * a * x * mono)
+                        e_sum += term * relerr + dR * grad
+                A.append(a_sum)
+                E.append(e_sum)
+    return np.array(A), np.array(E)
